@@ -503,9 +503,12 @@ def _run(ctx, args, t0):
         "assumptions": list(getattr(mod, "ASSUMPTIONS", [])),
         "wall_s": round(time.time() - t0, 2), "violations": violations,
     }
-    os.makedirs(EVID, exist_ok=True)
+    # runs against a scratch tree (VERIF_REPO, used only to try seeded changes) must not overwrite the
+    # evidence of the real tree
+    evid_dir = EVID if not os.environ.get("VERIF_REPO") else os.path.join(EVID, ".scratch")
+    os.makedirs(evid_dir, exist_ok=True)
     if not args.replay:
-        with open(os.path.join(EVID, f"{pid}.json"), "w") as f:
+        with open(os.path.join(evid_dir, f"{pid}.json"), "w") as f:
             json.dump(ev, f, indent=1, sort_keys=True, default=str)
     for l in lines:
         print(l, flush=True)
